@@ -640,3 +640,10 @@ def r12_5(ctx):
                           "string is line-ending safe)" % sorted(set(bad))[:3], site=ctx.site(b, bb))
         else:
             ctx.ok("temp content = format_directive_output(..) | \"\"|%s" % b.name, site=ctx.site(b, bb))
+
+
+@rule("C16", "R16.6", floor=4)
+def r16_6(ctx):
+    """escaped text survives: a continuation argument is the line minus exactly the prefix-long head, right-trimmed (= C15 R15.5)"""
+    import rules_dir
+    rules_dir.r15_5(ctx)
